@@ -49,15 +49,15 @@ claim("C04", f"functional postconditions + frame conditions of every mutator aga
       "Each mutator's effect on the abstract view (documented `before` rules, order, frame) is a postcondition taken from the documentation; real code and model run side by side on every enumerated pre-state/argument combination and on random histories.", NOTE + "; list.sort assumed stable", "§5 C04")
 claim("C05", f"{BND} of the round-trip contract load(save(T, opts)) ~ T over trees x option matrix; {DED} only for the mapper adapter call_mapper and the per-node payload (_make_list_entry)",
       "Document-level round trip is out of the deductive engine's reach (json/zip/io are assumed); decided by the bounded tier over small trees x the full option matrix.", NOTE + "; json/zipfile/io assumed", "§5 C05")
-claim("C06", f"{DED} for call_traversal_cb and the iterator/visit functions in reach (recursive spec sequences Pre/Post); {BND} for all methods x start nodes x control signals",
-      "Iterators are specified against recursive mathematical sequences; visit against the same order plus skip/stop semantics.", NOTE + "; random.shuffle, dict order assumed", "§5 C06")
+claim("C06", f"{DED} for call_traversal_cb, the generators _iter_pre/_iter_post/_iter_level and Node/Tree.iterator (recursive spec sequences Pre/Post, level spec), and for Node.visit / Tree.visit / _visit_pre / _visit_post in PRE_ORDER and POST_ORDER (the callback's event trace against the visit grammar: order, skip, stop, error); {BND} for all methods x start nodes x control signals incl. visit(LEVEL_ORDER), which is only an assumed variant of the visit contract",
+      "Iterators are specified against recursive mathematical sequences; visit by the trace of callback events (node, outcome kind) that must be derivable in the grammar of the documented visit.", NOTE + "; random.shuffle, dict order assumed", "§5 C06")
 claim("C07", f"{DED} for the shallow copy routes (add_child with a node child, its shortcuts, copy_to(add_self=True): fresh node, same data object and data_id, source unchanged); {BND} of all copy contracts incl. deep copies, add(tree), Tree.copy (fresh nodes, same data objects/ids/kinds, order, source frame unchanged, independence)",
       "Copy routes are checked against the independent model incl. the source tree's frame (order of its child lists) and mutation of either side afterwards.", NOTE, "§5 C07")
 claim("C08", f"{DED} for call_predicate normalisation; {BND} of filter/filtered/copy(predicate) against a recursive Keep spec over all verdict assignments",
       "Keep(n, V) is defined from the property statement; all assignments of the six verdict kinds (returned/raised) to the nodes of all small trees are enumerated.", NOTE + "; closures with shared mutable state are out of the engine's reach", "§5 C08")
 claim("C09", f"{DED} for the index-path searches and Tree.__getitem__/__contains__ in reach; {BND} for pattern/predicate searches; {XCHK}",
       "Search results are specified as the ordered filter of the pre-order sequence; index access by its resolution order and error cases.", NOTE + "; re.fullmatch is an uninterpreted predicate", "§5 C09")
-claim("C10", f"{DED}: every relationship query in reach has a postcondition over parent/children/pos/rank/upk of the entry heap; {BND} for the rest (calc_height, count_descendants(leaves_only), get_path); {XCHK}",
+claim("C10", f"{DED}: every relationship query in reach has a postcondition over parent/children/pos/rank/upk of the entry heap; calc_height through the contract of its nested recursive function; {BND} for the rest (get_path) and again for everything on enumerated trees, trees reached by a history and larger trees; {XCHK}",
       "Read-only queries are proved equal to their definition over the abstract view for all wf trees of unbounded size (loops carry inductive invariants with ghost counters); equal-comparing siblings are covered because list searches are specified by identity.", NOTE, "§5 C10")
 claim("C11", f"{BND} of the projection laws of diff over all ordered pairs of small labelled trees x ordered x reduce",
       "diff_tree is a recursion through a closure writing captured sets plus clone lookups and filter: out of the deductive engine's reach; decided by the bounded tier.", NOTE, "§5 C11")
